@@ -14,7 +14,8 @@
   * `C04_eq_iff_index`, `C04_hash`   equality of hands is equality of strength; equal hands hash equally
   * `C04_trichotomy`       any two valid hands of a type are `<`, `==` or `>`, exactly one of them
   * `C04_unknown_rejected` a hand containing an unknown rank is never accepted (the constructor
-                           raises `KeyError`)
+                           raises `KeyError`); `C04_unknown_card_rejected`: nor one containing a card of
+                           unknown suit (`ValueError`, since the F25 repair)
 
   What these do *not* establish is that the *content* of the tables is the order the rules of
   poker give (category order, kickers, ace conventions).  That part is decided on every run by
@@ -114,8 +115,12 @@ theorem C04_perm_invariant (l : LookupId) {a b : List Card} (h : a.Perm b) :
 
 theorem C04_entry_perm (T : Tables) (ht : HandType) {a b : List Card} (h : a.Perm b) :
     (mkHand T ht a).map (·.entry) = (mkHand T ht b).map (·.entry) := by
+  have hall : a.all Card.known = b.all Card.known := by
+    rw [Bool.eq_iff_iff]
+    simp only [List.all_eq_true]
+    exact ⟨fun hh c hc => hh c (h.mem_iff.2 hc), fun hh c hc => hh c (h.mem_iff.1 hc)⟩
   unfold mkHand hasEntry getEntry
-  rw [C04_perm_invariant ht.lookup h]
+  rw [C04_perm_invariant ht.lookup h, hall]
   repeat' split
   all_goals simp_all [Except.map]
 
@@ -178,5 +183,27 @@ theorem C04_unknown_rejected (T : Tables) (ht : HandType) (cs : List Card)
   have : (ht.lookup.rainbow && !areRainbow cs) = false := by
     rcases hr with h | h <;> simp [h]
   simp [this, hn]
+
+/-- **a card that is not a real card is never part of a hand** (unknown rank or unknown suit): the constructor
+    accepts no card list containing one, for any content of the tables (F25: before the repair five cards of
+    unknown suit were "suited" and `A?K?Q?J?T?` a straight flush) -/
+theorem C04_unknown_card_rejected (T : Tables) (ht : HandType) (cs : List Card)
+    (hu : ∃ c ∈ cs, c.isUnknown = true) : ∀ h, mkHand T ht cs ≠ .ok h := by
+  intro h hm
+  have hall : cs.all Card.known = false := by
+    obtain ⟨c, hc, hcu⟩ := hu
+    cases hk : cs.all Card.known with
+    | false => rfl
+    | true =>
+      rw [List.all_eq_true] at hk
+      have := hk c hc
+      unfold Card.known at this
+      rw [hcu] at this; cases this
+  unfold mkHand at hm
+  split at hm
+  · cases hm
+  · cases hm
+  · rw [hall] at hm
+    simp at hm
 
 end PK
